@@ -391,7 +391,8 @@ func (ca *ConnlistAnalyzer) includePairWithRepresentativePeer(pe *eval.PolicyEng
 	}
 	// if one peer is fake ingress-pod and the other is a representative peer
 	// todo: might check if peer is a fake ingress-controller by checking name and fakePod flag (within new pe func)
-	if (isRepSrc || isRepDst) && (src.Name() == common.IngressPodName || dst.Name() == common.IngressPodName) {
+	if (isRepSrc || isRepDst) && (common.IsIngressControllerPlaceholder(src.Name(), src.Namespace()) ||
+		common.IsIngressControllerPlaceholder(dst.Name(), dst.Namespace())) {
 		return false
 	}
 	return true
@@ -492,19 +493,19 @@ func (ca *ConnlistAnalyzer) getConnectionsList(pe *eval.PolicyEngine, ia *ingres
 // or if it exists in the peers list from the parsed resources
 // if not returns a suitable warning message
 func (ca *ConnlistAnalyzer) existsFocusWorkload(excludeIngressAnalysis bool) (existFocusWorkload bool, warning string) {
-	if ca.focusWorkload == common.IngressPodName {
-		if excludeIngressAnalysis { // if the ingress-analyzer is empty,
-			// then no routes/k8s-ingress objects -> ingress-controller pod will not be added
-			return false, netpolerrors.NoIngressSourcesErrStr + netpolerrors.EmptyConnListErrStr
-		}
+	if ca.focusWorkload == common.IngressPodName && !excludeIngressAnalysis {
 		return true, ""
 	}
 
-	// check if the focus-workload is in the peers
+	// check if the focus-workload is in the peers (a real workload may be named ingress-controller too)
 	for _, peer := range ca.peersList {
 		if ca.isPeerFocusWorkload(peer) {
 			return true, ""
 		}
+	}
+	if ca.focusWorkload == common.IngressPodName { // the ingress-analyzer is empty:
+		// no routes/k8s-ingress objects -> ingress-controller pod will not be added
+		return false, netpolerrors.NoIngressSourcesErrStr + netpolerrors.EmptyConnListErrStr
 	}
 	return false, netpolerrors.WorkloadDoesNotExistErrStr(ca.focusWorkload)
 }
